@@ -78,6 +78,10 @@ pub(crate) fn impl_cbrt_uint_scale(
 
     new_scale -= digits_to_trim as i64;
 
+    // the integer root truncates: the discarded part of the true root is only zero
+    // if the root is exact
+    let root_is_exact = || &result_digits * &result_digits * &result_digits == *integer_digits;
+
     let divisor = ten_to_the_uint(digits_to_trim);
     let (mut result_digits, remainder) = result_digits.div_rem(&divisor);
 
@@ -95,7 +99,7 @@ pub(crate) fn impl_cbrt_uint_scale(
     }
 
     let insig_data = rounding::InsigData::from_digit_and_lazy_trailing_zeros(
-        rounding_data, insig_digit0, || { trailing_digits.iter().all(Zero::is_zero) }
+        rounding_data, insig_digit0, || { trailing_digits.iter().all(Zero::is_zero) && root_is_exact() }
     );
 
     // lowest digit to round
